@@ -339,7 +339,8 @@ public:
 					if (op.d > 0 && (size_t)op.d < hs.size()) { hs.resize((size_t)op.d); cc[ci].hs_truncated = true; cc[ci].handshake_valid = false; cc[ci].poisoned = true; }
 					vd.labels.insert(cc[ci].handshake_valid ? "handshake:valid-variant" : cc[ci].hs_truncated ? "handshake:truncated" : "handshake:invalid");
 				}
-				k.send(c.kc, hs);
+				step_single = true;   // a CONNECT is always a step of its own: the request may arrive in two pieces like any other delivery
+				deliver(c.kc, hs);
 			}
 			ModelEvent e; e.k = ModelEvent::CONNECTED; e.conn = ci; e.seq = evs.size();
 			e.local = c.transport == 2 || origin == simk::OR_V4MAPPED_LOOPBACK || origin == simk::OR_V6_LOOPBACK;
